@@ -1,4 +1,4 @@
-\* exhaustive (thorough): 3 batchers, count 3, size 1 KB, memory 3 KB, timer on, callback failures, depth 7
+\* exhaustive (thorough): 3 batchers, count 3, size 1 KB, memory 3 KB, timer on, callback failures, depth 10
 SPECIFICATION Spec
 CHECK_DEADLOCK FALSE
 VIEW view
@@ -11,7 +11,7 @@ CONSTANTS
   MemMax = 6
   TimerOn = TRUE
   WithFail = TRUE
-  MaxOps = 7
+  MaxOps = 10
   ResetOnError = TRUE
   AddBeforeChecks = TRUE
   RemoveWhole = TRUE
